@@ -323,6 +323,13 @@ def countTimesteps (nLines : Nat) : Int := (nLines : Int) - 6
 
 /-! ### Filters -/
 
+/-- `filter_by_hoys`: both collections convert an hour of the year to a minute of the year with
+    `int(round(hour * 60))` (the argument is the product `hour * 60`; the driver forms the IEEE one). -/
+def hoyMoy (x60 : Rat) : Int := Py.round x60
+/-- The truncating conversion `int(hour * 60)` – NOT what the code does; kept for the counterexample
+    (seeded change C12-2). -/
+def hoyMoyTrunc (x60 : Rat) : Int := Py.truncRat x60
+
 /-- A collection filter as seen from the Wea: a value-independent selection of positions
     (C02 says which positions; here it is a parameter).  `none` = the filter raises. -/
 abbrev Sel := List DT → Option (List Nat)
